@@ -1,5 +1,6 @@
 import RegressModel
 import Proofs.Lemmas.SafetyBt
+import Proofs.Lemmas.TerminationBt
 /-!
 # Line-protocol driver
 
@@ -260,6 +261,10 @@ def opRunProg (args : List String) : String :=
         else if !(VM.Safety.checkCert p (VM.Safety.mkCert p)) then "no-boundary-cert " ++ r
         else if !(VM.Bt.lookConfined p) then "not-look-confined " ++ r
         else if !(VM.Safety.checkOrd p (VM.Safety.mkOrd p)) then "no-order-cert " ++ r
+        -- the decidable hypotheses of the C02 simulation and the C05 termination bound
+        else if !(VM.Sim.loopsStructured p) then "not-loops-structured " ++ r
+        else if !(VM.Sim.looksStructured p) then "not-looks-structured " ++ r
+        else if !(VM.Pk.lookLoopProg p) then "not-look-loop-prog " ++ r
         else r
       | .error _ => r
     | none => "bad-request"
@@ -315,6 +320,8 @@ def answer (line : String) : String :=
     (match start.toNat? with
      | some st => IR.semFindLine flags ir hay st
      | none => "bad-request")
+  | ["lower", flags, ast] => Lower.lowerLine flags ast
+  | ["esvalid", flags, pat] => ESG.esValidLine flags pat
   | "search" :: args => opSearch args
   | "esfind" :: args => opEsFind false args
   | "esiter" :: args => opEsFind true args
